@@ -1638,18 +1638,38 @@ void process_header_to_links(mmd_engine * e, token * h) {
 	// See if we have a manual label
 	token * manual = manual_label_from_header(h, e->dstr->str);
 
+	token * span = NULL;
+
 	if (manual) {
 		label = label_from_token(e->dstr->str, manual);
 		h = manual;
 	} else {
-		label = label_from_token(e->dstr->str, h);
+		if (h->child && h->child->tail) {
+			switch (h->child->tail->type) {
+				case MARKER_SETEXT_1:
+				case MARKER_SETEXT_2:
+					// The underline is not part of the title (see label_from_header)
+					span = token_new(h->type, h->start, h->child->tail->start - h->start);
+					break;
+
+				default:
+					break;
+			}
+		}
+
+		label = label_from_token(e->dstr->str, span ? span : h);
 	}
 
 	DString * url = d_string_new("#");
 
 	d_string_append(url, label);
 
-	link * l = link_new(e->dstr->str, h, url->str, NULL, NULL, LINK_AUTO);
+	link * l = link_new(e->dstr->str, span ? span : h, url->str, NULL, NULL, LINK_AUTO);
+
+	if (span) {
+		l->label = h;
+		token_free(span);
+	}
 
 	// Store link for later use
 	stack_push(e->link_stack, l);
